@@ -168,7 +168,7 @@ def do_elim(ctx: Ctx, N: NFA, origin: str):
 
 def nth_from_end_nfa(rng):
     """The classic 2ⁿ family: n-th symbol from the end is 'a'."""
-    n = rng.randint(1, 4)
+    n = rng.randint(1, 4) if rng.random() < 0.7 else rng.randint(5, 7)   # up to 2⁷ = 128 subset states
     tr = {0: {"a": {0, 1}, "b": {0}}}
     for i in range(1, n):
         tr[i] = {"a": {i + 1}, "b": {i + 1}}
